@@ -86,9 +86,9 @@ func init() {
 					}
 				}
 			}
-			for i := 0; i < t.Scale(600, 30000); i++ {
+			for i := 0; i < t.Scale(600, 3000); i++ {
 				var ops []string
-				for j, n := 0, 1+t.R.Intn(t.Scale(25, 80)); j < n; j++ {
+				for j, n := 0, 1+t.R.Intn(t.Scale(25, 50)); j < n; j++ {
 					sz := sizes[t.R.Intn(len(sizes))]
 					if t.R.Intn(2) == 0 {
 						sz = t.R.Intn(300)
